@@ -32,8 +32,13 @@ func Printf1[T any](fmtstr string, arg T) {
 	fmt.Printf(fmtstr, arg)
 }
 
+// Structural equality. Record fields may be lower case (unexported in go), so compare them too.
+var opEqualOpts = []gcmp.Option{
+	gcmp.Exporter(func(reflect.Type) bool { return true }),
+}
+
 func OpEqual[T any](e1 T, e2 T) bool {
-	return gcmp.Equal(e1, e2)
+	return gcmp.Equal(e1, e2, opEqualOpts...)
 }
 
 func OpNotEqual[T any](e1 T, e2 T) bool {
